@@ -686,8 +686,8 @@ Definition w_ctx_shift : inst :=
 (** C11-F4 on a history: two values shifted against each other share the key; the
     second request is answered with the response computed for the first *)
 Theorem F4_history_refuted :
-  exists w a b, (forall H, g_F4 fx_none H [a; b] = true) /\ step_orders_valid a /\ step_orders_valid b /\
-    forall H, map sr_out (run_cached fx_none H w [] [a; b]) <> map fst (run_fresh w [a; b]).
+  exists w a b, (forall H, g_F4 fx_all6 H [a; b] = true) /\ step_orders_valid a /\ step_orders_valid b /\
+    forall H, map sr_out (run_cached fx_all6 H w [] [a; b]) <> map fst (run_fresh w [a; b]).
 Proof.
   exists w_world,
     (mk_step w_ctx_shift (q_sub "alice" [("X-V1", "1"); ("X-V2", "v22")] []) ["X-Val"] ["v1"; "v2"]),
@@ -732,8 +732,8 @@ Definition w_ctx_outputs : inst :=
 
 (** C11-F7: `.Outputs` in the endpoint URL is not in the key *)
 Theorem F7_refuted :
-  exists w a b, (forall H, g_F7 fx_none H [a; b] = true) /\ step_orders_valid a /\ step_orders_valid b /\
-    forall H, map sr_out (run_cached fx_none H w [] [a; b]) <> map fst (run_fresh w [a; b]).
+  exists w a b, (forall H, g_F7 fx_all6 H [a; b] = true) /\ step_orders_valid a /\ step_orders_valid b /\
+    forall H, map sr_out (run_cached fx_all6 H w [] [a; b]) <> map fst (run_fresh w [a; b]).
 Proof.
   exists w_world, (mk_step w_ctx_outputs (q_sub "alice" [] [("foo", "A")]) [] []),
          (mk_step w_ctx_outputs (q_sub "alice" [] [("foo", "B")]) [] []).
@@ -755,8 +755,8 @@ Definition w_gen (session : bool) : inst :=
 (** C11-F10: a session the identity endpoint reports as not active, cached through a generic authenticator
     without session_lifespan, is accepted by the one on the same endpoint that asserts the lifespan *)
 Theorem F10_refuted :
-  exists w a b, (forall H, g_F10 fx_now H [a; b] = true) /\ step_orders_valid a /\ step_orders_valid b /\
-    forall H, map sr_out (run_cached fx_now H w [] [a; b]) <> map fst (run_fresh w [a; b]).
+  exists w a b, (forall H, g_F10 fx_pre10 H [a; b] = true) /\ step_orders_valid a /\ step_orders_valid b /\
+    forall H, map sr_out (run_cached fx_pre10 H w [] [a; b]) <> map fst (run_fresh w [a; b]).
 Proof.
   exists w_world, (mk_step (w_gen false) (q_plain "s.inactive") ["X-Cred"] []),
          (mk_step (w_gen true) (q_plain "s.inactive") ["X-Cred"] []).
